@@ -263,7 +263,9 @@ def _run_symbolic(fc, res, tier, exclusions):
             if fc.force_symbolic:
                 L.ns["np"].force_symbolic = True
             holder["L"] = L
-            if fc.expect_loops is not None and L.n_loops != fc.expect_loops:
+            if fc.expect_loops is not None and L.n_loops != fc.expect_loops and specs:
+                # loop contracts are keyed by ordinal: a changed loop structure invalidates the keying.
+                # (functions without loop contracts may gain or lose natively executed loops freely)
                 E.fail("%s:structure.loops" % fc.name, "function has %d loops, contract was written for %d: %r"
                        % (L.n_loops, fc.expect_loops, L.loop_headers))
             return fc.call(L.fn, **a)
